@@ -65,3 +65,78 @@ Print Assumptions C03_nonvacuous.
 
 (* accessor/constant table regenerated from the source: re-checked with this property *)
 From Traph Require AccessorFacts.
+
+(* ---- the link store as the source has it (GenLinks.v, regenerated on every run from
+   traph/link_store/node.py, link_store.py and the out-parameterised accessors of LRUTrieNode, over the
+   MemoryStorage object translated from the source).  GenLinksFacts.v proves, for every list length and
+   every target list:
+   C03_source_add_links      LinkStore.add_links appends exactly the stubs the model's push_stubs appends
+                             (an empty target list writes nothing, in either file; otherwise the page's out / in
+                             register receives the new head and the page is written with LRUTrieNode.write);
+   C03_source_add_links_bytes the same down to the bytes of both files (the page's 128-byte block rewritten in
+                             place, every other byte of the trie file unchanged);
+   C03_source_weighted_reachable  for EVERY history, on the bytes of the link file of the state reached,
+                             LinkStore.weighted_link_nodes_iter from the out / in head of any node returns the
+                             model's weighted target list (out_w / in_w, on which C03_page_links rests): the
+                             generated loop never runs out of fuel and never raises;
+   C03_source_store_stays_wf add_links keeps the stub list well-formed. *)
+From Traph Require GenStorage GenNode GenLinks GenLinksFacts.
+Import GenStorage GenNode GenLinks GenLinksFacts.
+Open Scope N_scope.
+Theorem C03_source_add_links : forall src sgt sg st targets out,
+  lrep st sg -> Forall target_ok targets -> wf_head st (py_node_links src out) ->
+  let h := py_node_links src out in
+  let st' := fst (push_stubs targets h st) in
+  let h' := snd (push_stubs targets h st) in
+  exists sg', lrep st' sg' /\
+    py_ls_add_links src sgt sg targets out =
+    Some (match targets with
+          | [] => (src, sgt, sg')
+          | _ => (fst (py_node_write (py_node_set_links src h' out) sgt),
+                  snd (py_node_write (py_node_set_links src h' out) sgt), sg')
+          end).
+Proof. exact py_ls_add_links_spec. Qed.
+Theorem C03_source_add_links_bytes : forall src sgt sg st b a t ts out,
+  lrep st sg -> Forall target_ok (t :: ts) ->
+  nd_exists src = true -> nd_block src = Some a -> nd_data src = Codec.tblock_vals b ->
+  wf_head st (blk_head out b) ->
+  pm_block_size sgt = Consts.py_node_block_size -> a + 128 <= N.of_nat (length (pm_array sgt)) ->
+  let st' := fst (push_stubs (t :: ts) (blk_head out b) st) in
+  let h' := snd (push_stubs (t :: ts) (blk_head out b) st) in
+  exists src' sgt' sg',
+    py_ls_add_links src sgt sg (t :: ts) out = Some (src', sgt', sg') /\
+    lrep st' sg' /\ h' <> 0 /\
+    nd_data src' = Codec.tblock_vals (blk_set_head out h' b) /\
+    length (pm_array sgt') = length (pm_array sgt) /\
+    firstn (N.to_nat a) (pm_array sgt') = firstn (N.to_nat a) (pm_array sgt) /\
+    GenStorage.py_slice a (a + 128) (pm_array sgt') = Codec.encode_tblock (blk_set_head out h' b) /\
+    skipn (N.to_nat a + 128) (pm_array sgt') = skipn (N.to_nat a + 128) (pm_array sgt).
+Proof. exact py_ls_add_links_blocks. Qed.
+Theorem C03_source_weighted_reachable : forall d rs h, wf_rules rs -> Forall wf_op h ->
+  let s := run d rs h in
+  forall sg, lrep (stubs s) sg -> fits (nb s * bsz) -> fits (saddr (length (stubs s))) ->
+  forall p nd, find p (tr s) = Some nd ->
+    (outh nd <> 0 -> py_ls_weighted_link_nodes_iter sg (outh nd) = Some (map lift (out_w nd s))) /\
+    (inh nd <> 0 -> py_ls_weighted_link_nodes_iter sg (inh nd) = Some (map lift (in_w nd s))).
+Proof.
+  intros d rs h Hr Hh s sg Hrep Hft Hfl p nd Hf.
+  pose proof (run_Rl d rs h Hr Hh) as HR. fold s in HR.
+  pose proof (reachable_wf_stubs s _ HR Hft Hfl) as Hwf.
+  destruct (L_heads s _ HR p nd Hf) as [Ho Hi].
+  split; intro Hnz.
+  - destruct Ho as [E|(j & Hj & E)]; [contradiction|]. unfold out_w. rewrite E.
+    destruct (nth_error (stubs s) j) as [x|] eqn:En; [|apply nth_error_None in En; Lia.lia].
+    exact (py_ls_weighted_spec (stubs s) sg j x Hwf Hrep En).
+  - destruct Hi as [E|(j & Hj & E)]; [contradiction|]. unfold in_w. rewrite E.
+    destruct (nth_error (stubs s) j) as [x|] eqn:En; [|apply nth_error_None in En; Lia.lia].
+    exact (py_ls_weighted_spec (stubs s) sg j x Hwf Hrep En).
+Qed.
+Theorem C03_source_store_stays_wf : forall targets h st,
+  wf_stubs st -> Forall (fun t => target_ok t /\ fits t) targets -> wf_head st h ->
+  fits (saddr (length st + length targets)) ->
+  wf_stubs (fst (push_stubs targets h st)).
+Proof. exact push_stubs_wf. Qed.
+Print Assumptions C03_source_add_links.
+Print Assumptions C03_source_add_links_bytes.
+Print Assumptions C03_source_weighted_reachable.
+Print Assumptions C03_source_store_stays_wf.
